@@ -18,6 +18,9 @@ pub struct AttrSet {
     pub name: String,
     /// foreign attributes, rendered before (false) or after (true) the darling attribute
     pub foreign: Vec<(bool, String)>,
+    /// an attribute without items written in the bare form `#[name]` instead of `#[name()]`
+    #[serde(default)]
+    pub bare: bool,
 }
 
 #[derive(Clone, Debug, Serialize, Deserialize)]
@@ -95,7 +98,11 @@ fn render_attrset(a: &AttrSet, prefix: Option<usize>, out: &mut String, side: &m
         }
     }
     if let Some(nodes) = &a.nodes {
-        out.push_str(&format!("#[{}(", a.name));
+        if nodes.is_empty() && a.bare {
+            out.push_str(&format!("#[{}]\n", a.name));
+        } else {
+            out.push_str(&format!("#[{}(", a.name));
+        }
         for (i, n) in nodes.iter().enumerate() {
             if i > 0 {
                 out.push_str(", ");
@@ -106,7 +113,9 @@ fn render_attrset(a: &AttrSet, prefix: Option<usize>, out: &mut String, side: &m
             };
             render_node(n, &mut path, out, side);
         }
-        out.push_str(")]\n");
+        if !(nodes.is_empty() && a.bare) {
+            out.push_str(")]\n");
+        }
     }
     for (after, f) in &a.foreign {
         if *after {
@@ -124,7 +133,10 @@ pub fn attr_texts(a: &AttrSet) -> Vec<(String, bool)> {
             out.push((f.clone(), true));
         }
     }
-    if let Some(nodes) = &a.nodes {
+    if let Some(nodes) = a.nodes.as_ref().filter(|n| n.is_empty() && a.bare) {
+        let _ = nodes;
+        out.push((format!("#[{}]", a.name), false));
+    } else if let Some(nodes) = &a.nodes {
         let mut s = format!("#[{}(", a.name);
         let mut side = Side::default();
         for (i, n) in nodes.iter().enumerate() {
